@@ -51,17 +51,36 @@ Prefix2 ==
     << Ev("pl", "creator", "", "", [InitPL EXCEPT !["bob"] = 3], "", {6}, {1, 2, 3}, 7, 1, 7),
        Ev("member", "carol", "carol", "join", NoUsers, "", {7}, {1, 4, 7}, 8, 1, 8) >>
 
+\* a third starting point: a side branch with its own power-levels event (7) and a topic authorised by it (8),
+\* a concurrent power-levels event on the main branch (9), and a merge (10).  Rooms that fork after the merge
+\* have state sets that agree on the power levels while one topic still cites the side branch's power levels:
+\* that event is then in the auth chain of some state sets only.
+Prefix3 ==
+    LET E9 == Prefix \o
+              << Ev("pl", "creator", "", "", [InitPL EXCEPT !["bob"] = 3], "", {5}, {1, 2, 3}, 6, 1, 7),
+                 Ev("topic", "creator", "", "", NoUsers, "", {7}, {1, 2, 7}, 7, 1, 8),
+                 Ev("pl", "creator", "", "", [InitPL EXCEPT !["alice"] = 3], "", {6}, {1, 2, 3}, 7, 1, 9) >>
+        a8 == {1, 2, 4, 5, 7, 8}
+        a9 == {1, 2, 4, 5, 6, 9}
+        S == Resolve(E9, Ver, <<a8, a9>>)
+        E10 == Append(E9, Ev("jr", "creator", "", "", NoUsers, "invite", {8, 9},
+                             {1, 2} \cup {p \in S : E9[p].type = "pl"}, 8, 1, 10))
+    IN [E |-> E10,
+        after |-> [i \in 1..10 |-> CASE i <= 6 -> 1..i [] i = 7 -> {1, 2, 4, 5, 7} [] i = 8 -> a8 [] i = 9 -> a9
+                                     [] OTHER -> ApplyTo(E10, S, 10)]]
+
 InitRoom ==
         \/ /\ Start = 1 /\ E = Prefix /\ after = [i \in 1..6 |-> 1..i] /\ last = 0
         \/ /\ Start = 2 /\ E = Prefix2
            /\ after = [i \in 1..8 |-> IF i <= 6 THEN 1..i ELSE IF i = 7 THEN {1, 2, 4, 5, 6, 7} ELSE {1, 2, 4, 5, 6, 7, 8}]
            /\ last = 0
+        \/ /\ Start = 3 /\ E = Prefix3.E /\ after = Prefix3.after /\ last = 0
 
 Init == /\ before = {}
         /\ InitRoom
 
 
-Base == IF Start = 1 THEN 6 ELSE 8
+Base == CASE Start = 1 -> 6 [] Start = 2 -> 8 [] OTHER -> 10
 
 \* ancestors through prev_events
 RECURSIVE PrevReach(_, _, _)
